@@ -50,6 +50,7 @@ ASSUMPTIONS = [
     "answers to the wrappers' `locate` / `read` are None or well-formed locations / readings (one value)",
     "no GeneratorExit is thrown into a wrapper in the middle of a script (close() at the end is covered)",
     "positions are integers in the model and in the generated cases (the wrappers only add them)",
+    "statements are about `set` message OBJECTS yielded for the first time (plan_mutator passes an object it has seen through unprocessed)",
 ]
 TRUSTED = ["harness/pairedextract.py", "harness/genextract.py", "harness/plangen.py (AST -> Python source)"]
 
@@ -119,7 +120,9 @@ class World(B.World):
             cmd, obj, num = self.table[k]
             o = None if obj is None else self.dev(obj)
             if cmd == "set":
-                m = self.Msg(cmd, o, num, rel=num)  # the kwarg survives rewrite_pos: the oracle reads the offset from it
+                # the kwargs survive rewrite_pos: the oracle reads the requested offset and the object's identity from them
+                self.uid = getattr(self, "uid", 0) + 1
+                m = self.Msg(cmd, o, num, rel=num, uid=self.uid)
             else:
                 m = self.Msg(cmd, o) if num is None else self.Msg(cmd, o, num)
         else:
@@ -184,6 +187,7 @@ def _drive(case, script, instrument):
     log = [] if instrument else None
     gen = build(case, world, log)
     trace, origins, rels = [], [], []
+    uids = set()
     pending = None
     for step, cmd in enumerate(script):
         world.step = step
@@ -209,7 +213,11 @@ def _drive(case, script, instrument):
                 raise ValueError(cmd)
             trace.append(canon_msg(m, world))
             origins.append("plan" if id(m) in world.plan_ids else "wrapper")
-            rels.append(m.kwargs.get("rel") if m.command == "set" else None)
+            rel = m.kwargs.get("rel") if m.command == "set" else None
+            if rel is not None and (m.kwargs.get("uid") in uids or m.kwargs.get("uid") in world.reyielded_uids):
+                rel = ("again", rel)  # the same message object yielded a second time: plan_mutator does not process it again
+            uids.add(m.kwargs.get("uid"))
+            rels.append(rel)
             pending = m
         except StopIteration as e:
             v = e.value
@@ -286,6 +294,8 @@ def oracle(case, script, trace, origins, log, rels):
                     init.setdefault(d, val)
                 else:
                     init_reset.setdefault(d, val)
+        if o[1] == "set" and o[2] is not None and isinstance(rels[i], tuple):
+            continue  # re-yielded message object (msgs_seen is keyed by id): outside the property's domain
         if o[1] == "set" and o[2] is not None and rels[i] is not None:
             d = o[2]
             kind, pos = _kind(case, d)
@@ -507,93 +517,103 @@ def _consume(plan, motors, answers, throw_at=None, exc=None):
     return out, outcome
 
 
-def _real_rel_plans(ctx):
-    """the real rel_* plans of bluesky.plans on fake motors, an exception thrown at every message in turn (oracle only)"""
+def _rel_specs(det, m0, m1, a, b, n):
     import bluesky.plans as bp
+
+    return {
+        "rel_scan": ([m0], lambda: bp.rel_scan([det], m0, a, b, n), lambda: bp.scan([det], m0, a, b, n)),
+        "rel_scan2": ([m0, m1], lambda: bp.rel_scan([det], m0, a, b, m1, b, a, n), lambda: bp.scan([det], m0, a, b, m1, b, a, n)),
+        "rel_list_scan": ([m0], lambda: bp.rel_list_scan([det], m0, [a, 0, b]), lambda: bp.list_scan([det], m0, [a, 0, b])),
+        "rel_grid_scan": ([m0, m1], lambda: bp.rel_grid_scan([det], m0, a, b, 2, m1, 0, b, n), lambda: bp.grid_scan([det], m0, a, b, 2, m1, 0, b, n)),
+        "rel_list_grid_scan": ([m0, m1], lambda: bp.rel_list_grid_scan([det], m0, [a, b], m1, [0, 1, 2]), lambda: bp.list_grid_scan([det], m0, [a, b], m1, [0, 1, 2])),
+        "rel_log_scan": ([m0], lambda: bp.rel_log_scan([det], m0, 0, 1, n), lambda: bp.log_scan([det], m0, 0, 1, n)),
+        "rel_spiral": ([m0, m1], lambda: bp.rel_spiral([det], m0, m1, 2, 2, 1, 4), lambda: bp.spiral([det], m0, m1, 0, 0, 2, 2, 1, 4)),
+        "rel_spiral_fermat": ([m0, m1], lambda: bp.rel_spiral_fermat([det], m0, m1, 2, 2, 1, 1.0), lambda: bp.spiral_fermat([det], m0, m1, 0, 0, 2, 2, 1, 1.0)),
+        "rel_spiral_square": ([m0, m1], lambda: bp.rel_spiral_square([det], m0, m1, 2, 2, 3, 3), lambda: bp.spiral_square([det], m0, m1, 0, 0, 2, 2, 3, 3)),
+    }
+
+
+def _real_one(res, name, par, ks):
+    """one real rel_* plan: undisturbed and with an exception thrown at the messages `ks` (None = undisturbed)"""
     from bluesky.utils import RequestStop
 
-    res = C.Result()
-    rng = ctx.rng
-    det = Det("det")
-
-    def specs(m0, m1):
-        a, b = rng.randrange(-5, 0), rng.randrange(1, 6)
-        n = rng.randrange(2, 5)
-        return [
-            ("rel_scan", [m0], lambda: bp.rel_scan([det], m0, a, b, n), lambda: bp.scan([det], m0, a, b, n)),
-            ("rel_scan2", [m0, m1], lambda: bp.rel_scan([det], m0, a, b, m1, b, a, n), lambda: bp.scan([det], m0, a, b, m1, b, a, n)),
-            ("rel_list_scan", [m0], lambda: bp.rel_list_scan([det], m0, [a, 0, b]), lambda: bp.list_scan([det], m0, [a, 0, b])),
-            ("rel_grid_scan", [m0, m1], lambda: bp.rel_grid_scan([det], m0, a, b, 2, m1, 0, b, n), lambda: bp.grid_scan([det], m0, a, b, 2, m1, 0, b, n)),
-            ("rel_list_grid_scan", [m0, m1], lambda: bp.rel_list_grid_scan([det], m0, [a, b], m1, [0, 1, 2]), lambda: bp.list_grid_scan([det], m0, [a, b], m1, [0, 1, 2])),
-            ("rel_log_scan", [m0], lambda: bp.rel_log_scan([det], m0, 0, 1, n), lambda: bp.log_scan([det], m0, 0, 1, n)),
-            ("rel_spiral", [m0, m1], lambda: bp.rel_spiral([det], m0, m1, 2, 2, 1, 4), lambda: bp.spiral([det], m0, m1, 0, 0, 2, 2, 1, 4)),
-            ("rel_spiral_fermat", [m0, m1], lambda: bp.rel_spiral_fermat([det], m0, m1, 2, 2, 1, 1.0), lambda: bp.spiral_fermat([det], m0, m1, 0, 0, 2, 2, 1, 1.0)),
-            ("rel_spiral_square", [m0, m1], lambda: bp.rel_spiral_square([det], m0, m1, 2, 2, 3, 3), lambda: bp.spiral_square([det], m0, m1, 0, 0, 2, 2, 3, 3)),
-        ]
-
-    m0, m1 = Motor(0), PosMotor(1, 40)
-    a1, a2 = rng.randrange(50, 150), rng.randrange(200, 300)
+    a1, a2 = par["a1"], par["a2"]
+    det, m0, m1 = Det("det"), Motor(0), PosMotor(1, 40)
+    motors, mk_rel, mk_abs = _rel_specs(det, m0, m1, par["a"], par["b"], par["n"])[name]
     answers = {m0.name: [a1, a2, 0], m1.name: [0]}
     init_rel = {m0.name: a1, m1.name: 40}
     init_reset = {m0.name: a2, m1.name: 40}
-    for name, motors, mk_rel, mk_abs in specs(m0, m1):
-        names = [m.name for m in motors]
-        try:
-            abs_trace, _ = _consume(mk_abs(), motors, {m0.name: [0], m1.name: [0]})
-            full, outcome = _consume(mk_rel(), motors, answers)
-        except Exception as e:  # noqa: BLE001
-            res.notes.append(f"{name}: could not be consumed without a RunEngine ({type(e).__name__}: {e})")
-            continue
-        if outcome != ["ret"]:
-            res.notes.append(f"{name}: the undisturbed plan does not run to its end without a RunEngine ({outcome}); skipped")
-            continue
-        offsets = {n: [t[2] for t in abs_trace if t[0] == "set" and t[1] == n] for n in names}
-        ks = list(range(1, len(full) + 1))
-        if ctx.tier != "thorough" and not ctx.deep and len(ks) > 40:
-            ks = sorted(rng.sample(ks, 40))
-        for k in [None] + ks:
-            for exc in ([None] if k is None else [RuntimeError("boom")] + ([RequestStop()] if k % 5 == 0 else [])):
-                trace, outcome = _consume(mk_rel(), motors, answers, k, exc)
-                case = {"real_plan": name, "throw_at": k, "exc": type(exc).__name__ if exc else None, "a1": a1, "a2": a2}
-                res.seen(case, k is not None)
-                res.count("cases:real:" + name)
-                # recorded by the reset layer: read-kind motors once their second query was answered, .position motors once set
-                recorded = []
-                seen_reads = {n: 0 for n in names}
-                first_set = {}
-                for i, t in enumerate(trace):
-                    answered = not (k is not None and i + 1 == k)
-                    if t[0] == "read" and t[1] in names and t[1] not in first_set:
-                        if answered:
-                            seen_reads[t[1]] += 1
-                            if seen_reads[t[1]] == 2 and t[1] == m0.name and t[1] not in recorded:
-                                recorded.append(t[1])
-                    if t[0] == "set" and t[1] in names and t[1] not in first_set:
-                        first_set[t[1]] = i
-                        if t[1] == m1.name and t[1] not in recorded:
-                            recorded.append(t[1])
-                expect_reset = [("set", n, init_reset[n]) for n in recorded] + [("wait", None, None)]
-                body = trace
-                thrown_in_reset = False
-                if outcome is not None and (k is None or k <= len(trace) - len(expect_reset)):
-                    tail = [(t[0], t[1], t[2]) for t in trace[len(trace) - len(expect_reset) :]]
-                    if tail != expect_reset:
-                        res.violations.append(C.Violation(f"{name}:devices-not-reset-to-initial-positions", f"{name} (exception at message {k}): the plan ended with {outcome} but its last messages are {tail}, expected {expect_reset}", dict(case, trace=[list(map(str, t)) for t in trace])))
-                    else:
-                        groups = {t[3] for t in trace[len(trace) - len(expect_reset) :]}
-                        if len(groups) != 1 or None in groups:
-                            res.violations.append(C.Violation(f"{name}:reset-not-in-one-group", f"{groups}", case))
-                        body = trace[: len(trace) - len(expect_reset)]
-                else:
-                    thrown_in_reset = True
-                # every set of the scan = initial position + the absolute scan's value
-                for n in names:
-                    got = [t[2] for t in body if t[0] == "set" and t[1] == n]
-                    if thrown_in_reset and got:
-                        got = got[: len(offsets[n])]
-                    want = [init_rel[n] + o for o in offsets[n]][: len(got)]
-                    if len(got) > len(offsets[n]) or any(abs(float(x) - float(y)) > 1e-9 for x, y in zip(got, want)):
-                        res.violations.append(C.Violation(f"{name}:set-is-not-initial-plus-offset", f"{name} (exception at message {k}): {n} commanded to {got}, expected {want} (initial {init_rel[n]} + {offsets[n]})", dict(case, trace=[list(map(str, t)) for t in trace])))
+    names = [m.name for m in motors]
+    try:
+        abs_trace, _ = _consume(mk_abs(), motors, {m0.name: [0], m1.name: [0]})
+        full, outcome = _consume(mk_rel(), motors, answers)
+    except Exception as e:  # noqa: BLE001
+        res.notes.append(f"{name}: could not be consumed without a RunEngine ({type(e).__name__}: {e})")
+        return 0
+    if outcome != ["ret"]:
+        res.notes.append(f"{name}: the undisturbed plan does not run to its end without a RunEngine ({outcome}); skipped")
+        return 0
+    offsets = {n: [t[2] for t in abs_trace if t[0] == "set" and t[1] == n] for n in names}
+    if ks == "all":
+        ks = [[None, None]] + [[k, e] for k in range(1, len(full) + 1) for e in (["RuntimeError"] + (["RequestStop"] if k % 5 == 0 else []))]
+    for k, excname in ks:
+        exc = None if k is None else (RequestStop() if excname == "RequestStop" else RuntimeError("boom"))
+        trace, outcome = _consume(mk_rel(), motors, answers, k, exc)
+        case = dict(par, real_plan=name, throw_at=k, exc=excname)
+        res.seen(case, k is not None)
+        res.count("cases:real:" + name)
+        # recorded by the reset layer: read-kind motors once their second query was answered, .position motors once set
+        recorded = []
+        seen_reads = {n: 0 for n in names}
+        first_set = {}
+        for i, t in enumerate(trace):
+            answered = not (k is not None and i + 1 == k)
+            if t[0] == "read" and t[1] in names and t[1] not in first_set and answered:
+                seen_reads[t[1]] += 1
+                if seen_reads[t[1]] == 2 and t[1] == m0.name and t[1] not in recorded:
+                    recorded.append(t[1])
+            if t[0] == "set" and t[1] in names and t[1] not in first_set:
+                first_set[t[1]] = i
+                if t[1] == m1.name and t[1] not in recorded:
+                    recorded.append(t[1])
+        expect_reset = [("set", n, init_reset[n]) for n in recorded] + [("wait", None, None)]
+        body = trace
+        thrown_in_reset = False
+        shown = [list(map(str, t)) for t in trace]
+        if outcome is not None and (k is None or k <= len(trace) - len(expect_reset)):
+            tail = [(t[0], t[1], t[2]) for t in trace[len(trace) - len(expect_reset) :]]
+            if tail != expect_reset:
+                res.violations.append(C.Violation(f"{name}:devices-not-reset-to-initial-positions", f"{name} (exception at message {k}): the plan ended with {outcome} but its last messages are {tail}, expected {expect_reset}", dict(case, trace=shown)))
+            else:
+                groups = {t[3] for t in trace[len(trace) - len(expect_reset) :]}
+                if len(groups) != 1 or None in groups:
+                    res.violations.append(C.Violation(f"{name}:reset-not-in-one-group", f"{groups}", dict(case, trace=shown)))
+                body = trace[: len(trace) - len(expect_reset)]
+        else:
+            thrown_in_reset = True
+        # every set of the scan = initial position + the absolute scan's value
+        for n in names:
+            got = [t[2] for t in body if t[0] == "set" and t[1] == n]
+            if thrown_in_reset and got:
+                got = got[: len(offsets[n])]
+            want = [init_rel[n] + o for o in offsets[n]][: len(got)]
+            if len(got) > len(offsets[n]) or any(abs(float(x) - float(y)) > 1e-9 for x, y in zip(got, want)):
+                res.violations.append(C.Violation(f"{name}:set-is-not-initial-plus-offset", f"{name} (exception at message {k}): {n} commanded to {got}, expected {want} (initial {init_rel[n]} + {offsets[n]})", dict(case, trace=shown)))
+    return len(full)
+
+
+def _real_rel_plans(ctx):
+    """the real rel_* plans of bluesky.plans on fake motors, an exception thrown at every message in turn (oracle only)"""
+    res = C.Result()
+    rng = ctx.rng
+    par = {"a": rng.randrange(-5, 0), "b": rng.randrange(1, 6), "n": rng.randrange(2, 5), "a1": rng.randrange(50, 150), "a2": rng.randrange(200, 300)}
+    for name in _rel_specs(None, None, None, 0, 1, 2):
+        if ctx.tier == "thorough" or ctx.deep:
+            _real_one(res, name, par, "all")
+        else:
+            n = _real_one(res, name, par, [[None, None]])
+            ks = sorted(rng.sample(range(1, n + 1), min(n, 40)))
+            _real_one(res, name, par, [[k, "RequestStop" if k % 5 == 0 else "RuntimeError"] for k in ks])
     return res
 
 
@@ -605,6 +625,9 @@ def replay(ctx, data):
     G.quiet_unraisable()
     res = C.Result()
     case = dict(data["case"])
+    if "real_plan" in case:
+        _real_one(res, case["real_plan"], {k: case[k] for k in ("a", "b", "n", "a1", "a2")}, [[case["throw_at"], case["exc"]]])
+        return res
     if "script" not in case:
         return res
     s = case.pop("script")
